@@ -293,22 +293,20 @@ Lemma call_returns_ok : forall D r k st, is_ok (scripted r k) = true -> call_ret
 Proof. intros D r k st H. unfold call_returns. destruct (scripted r k); try discriminate; reflexivity. Qed.
 
 (* a call that was seen made and whose scripted answer is a full block handed back before the end of
-   the context (no other relay's call returning without a block at that very instant): something was
-   seen submitted no later than that *)
+   the context: something was seen submitted no later than that *)
 Lemma P_core_sound_first_block : forall c p fc i calls k st rq r,
   P_core c = true ->
   e_proposal (c_env c) = POk p -> p_blinded p = true -> full_container (p_version p) = Some fc ->
   nth_error (o_unblind (c_obs c)) i = Some calls -> nth_error calls k = Some (st, rq) ->
   nth_error (e_relays (c_env c)) i = Some r -> is_ok (scripted r k) = true ->
   st + scripted_lat r k < e_deadline (c_env c) ->
-  scheduler_decides c (st + scripted_lat r k) = false ->
   exists t sp, o_submit (c_obs c) = Some (t, sp) /\ t <= st + scripted_lat r k.
 Proof.
-  intros c p fc i calls k st rq r HP Hp Hbl Hfc Hc Hk Hr Hok Hlt Hsd.
+  intros c p fc i calls k st rq r HP Hp Hbl Hfc Hc Hk Hr Hok Hlt.
   destruct (P_core_clauses c HP) as (_ & _ & _ & _ & _ & _ & _ & _ & _ & _ & _ & H).
   unfold first_block_submitted, unblinds_to in H. rewrite Hp, Hbl, Hfc in H. cbn [is_some andb negb orb] in H.
   rewrite forallb_forall in H. specialize (H _ (returned_calls_nth c i calls k st rq r Hc Hk Hr)).
-  cbv beta iota in H. rewrite (call_returns_ok _ _ _ _ Hok), Hok, Hsd in H.
+  cbv beta iota in H. rewrite (call_returns_ok _ _ _ _ Hok), Hok in H.
   apply N.ltb_lt in Hlt. rewrite Hlt in H. cbn [negb orb] in H.
   unfold submitted_by in H. destruct (o_submit (c_obs c)) as [[t sp]|]; [|discriminate].
   exists t, sp. split; [reflexivity|]. apply N.leb_le; exact H.
@@ -515,10 +513,7 @@ Proof.
       (acct' & pr' & h' & sig' & code' & _ & _ & _ & _ & Hp' & Hbl' & Hb' & _ & Hsig' & Hcode' & Hrq & _).
     rewrite Hp in Hp'; injection Hp' as <-. rewrite Hb in Hb'; injection Hb' as <-.
     rewrite Hsig in Hsig'; injection Hsig' as <-. rewrite Hbl in *. rewrite Hcode in Hcode'; injection Hcode' as <-.
-    cbn [fst snd]. destruct Hrq as [-> | (-> & t & sp' & Hsub & Hlt)].
-    + apply orb_true_iff; left. apply ureq_eqb_spec; reflexivity.
-    + apply orb_true_iff; right. rewrite Hsub.
-      apply andb_true_iff; split; [apply N.ltb_lt; exact Hlt|]. apply ureq_eqb_spec. reflexivity.
+    cbn [fst snd]. subst rq. apply ureq_eqb_spec; reflexivity.
 Qed.
 
 (* the request built from a signed blinded bellatrix..deneb block has its one container, so an
@@ -704,7 +699,6 @@ Proof.
   destruct (is_ok (scripted r k)) eqn:Hok; [|reflexivity]. cbn [negb orb].
   rewrite (call_returns_ok _ _ _ _ Hok).
   destruct (st + scripted_lat r k <? e_deadline e) eqn:Hlt; [|reflexivity]. cbn [negb orb].
-  apply orb_true_iff; right.
   destruct (scripted_eq r k) as (Hsc & Hlat). rewrite Hsc in Hok. rewrite Hlat in *.
   rewrite Hobs in Hc. apply N.ltb_lt in Hlt.
   destruct (full_block_in_time_submitted cf e D p i r calls k st rq fc Hp Efc Hr Hc Hk Hok Hlt) as (t & sp & Hsub & Hle).
